@@ -788,13 +788,38 @@ func (x *Exec) loopHeader(st *State, fr *Frame, h *ssa.BasicBlock, pred *ssa.Bas
 	}
 	for _, hk := range keys {
 		if hk.key == "*all*" {
+			keep := map[string]Tm{}
+			if spec != nil {
+				for _, pr := range spec.Preserves {
+					for _, pk := range x.modifiesKeys(st, fr.contract.Pkg, pr) {
+						keep[pk.key] = st.heapGet(pk.key, pk.sort)
+					}
+				}
+			}
 			st.havocAll()
+			for k2, v := range keep {
+				st.heap[k2] = v
+			}
 			break
 		}
 	}
+	preserved := map[string]bool{}
+	if spec != nil {
+		for _, pr := range spec.Preserves {
+			for _, pk := range x.modifiesKeys(st, fr.contract.Pkg, pr) {
+				preserved[pk.key] = true
+			}
+		}
+	}
+	hadAll := false
 	for _, hk := range keys {
 		if hk.key == "*all*" {
-			continue
+			hadAll = true
+		}
+	}
+	for _, hk := range keys {
+		if hadAll || hk.key == "*all*" || preserved[hk.key] {
+			continue // havocAll above already forgot everything that is not preserved / local
 		}
 		if _, ok := st.sorts[hk.key]; !ok {
 			st.sorts[hk.key] = hk.sort
